@@ -39,6 +39,13 @@ SPEC = {"amp": {1: True, 2: True, 3: True},
         "theta": {1: False, 2: False, 3: True}}
 
 MUTANTS = [
+    ("off-image test left to IndexError", "AegeanTools/source_finder.py",
+     "                    not 0 <= x < shape[0]\n"
+     "                    or not 0 <= y < shape[1]\n"
+     "                    or not np.isfinite(data[x, y])",
+     "                    x >= shape[0]\n"
+     "                    or y >= shape[1]\n"
+     "                    or not np.isfinite(data[x, y])", "C05-R14"),
     ("islands split on consecutive labels only", "AegeanTools/source_finder.py",
      "            groups = list(island_itergen(input_sources))",
      "            import itertools\n"
@@ -327,6 +334,7 @@ def run(ctx):
     ctx.floor("C05-R12", n12, 15, "internal calls reachable from priorized "
               "fitting")
     rule_groupby(ctx, prog)
+    rule_guarded_pixel(ctx, prog)
     # blends are fitted jointly: default grouping length (shared with C19)
     from .c19 import default_linking_length
     ctx.rule("C05-R8", "blended sources are fitted jointly: the default "
@@ -685,6 +693,88 @@ def r5(ctx, prog):
               "Beam(nan, nan, nan) then raises and priorized fitting aborts "
               "for every catalogue lacking the optional columns" %
               (attr, default), {"default": default}, hp[0])
+
+
+def rule_guarded_pixel(ctx, prog, rule="C05-R14"):
+    """a catalogue position is tested against BOTH ends of both axes before
+    it indexes the image: numpy raises IndexError only beyond the far end, a
+    negative index silently wraps to the other side of the image"""
+    from .. import concrete
+    ctx.rule(rule, "off-image sources: every single-pixel look-up "
+             "<image>[x, y] at a catalogue position in _refit_islands is "
+             "reached only when 0 <= x < shape[0] and 0 <= y < shape[1] -- "
+             "decided by interpreting the guarding tests at positions just "
+             "outside each of the four edges (a try / except IndexError "
+             "guards the far edges only: negative indices wrap)")
+    fi = prog.func(RF)
+    pm = {}
+    for x_ in ast.walk(fi.node):
+        for ch in ast.iter_child_nodes(x_):
+            pm[ch] = x_
+    look = [x_ for x_ in walk_no_nested(fi.node)
+            if isinstance(x_, ast.Subscript) and
+            isinstance(x_.ctx, ast.Load) and
+            isinstance(x_.slice, ast.Tuple) and len(x_.slice.elts) == 2 and
+            all(isinstance(e, ast.Name) for e in x_.slice.elts) and
+            isinstance(x_.value, ast.Name)]
+    n = 0
+    for sub in look:
+        ix, iy = (e.id for e in sub.slice.elts)
+        # enclosing statement and the guards in front of it
+        st = sub
+        while st in pm and not isinstance(st, ast.stmt):
+            st = pm[st]
+        chain = []          # (test, indexing inside the test?)
+        cur = st
+        while cur in pm and cur is not fi.node:
+            par = pm[cur]
+            for fld in ("body", "orelse", "finalbody"):
+                blk = getattr(par, fld, None)
+                if isinstance(blk, list) and cur in blk:
+                    for prev in blk[:blk.index(cur)]:
+                        if isinstance(prev, ast.If) and prev.body and \
+                                isinstance(prev.body[-1], (ast.Continue,
+                                                           ast.Return,
+                                                           ast.Raise,
+                                                           ast.Break)):
+                            chain.append(prev.test)
+            if isinstance(par, ast.For) and (
+                    ix in names_in(par.target) or iy in names_in(par.target)):
+                break
+            cur = par
+        inside_test = isinstance(st, ast.If) and any(
+            x_ is sub for x_ in ast.walk(st.test))
+        n += 1
+        reached = []
+        for (vx, vy) in ((-1, 5), (5, -1), (10, 5), (5, 10)):
+            env = {ix: vx, iy: vy, "shape": [10, 10]}
+            env["%s.shape" % sub.value.id] = [10, 10]
+            stopped = False
+            for t_ in chain:
+                try:
+                    if concrete.ev(t_, env):
+                        stopped = True
+                        break
+                except concrete.Unknown:
+                    continue
+            if stopped:
+                continue
+            if inside_test:
+                try:
+                    concrete.ev(st.test, env)
+                    continue        # decided without touching the pixel
+                except concrete.Unknown:
+                    pass
+            reached.append((vx, vy))
+        ctx.check(rule, fi, "pixel look-up %s" % norm(sub), not reached,
+                  "%s is evaluated for a position at (%s) of a 10 x 10 "
+                  "image: beyond the low edge the index wraps to the far "
+                  "side (no IndexError), so an off-image source is tested "
+                  "on an unrelated pixel, accepted, and its empty cut-out "
+                  "aborts the whole run" %
+                  (norm(sub), ", ".join("%d,%d" % r for r in reached)),
+                  node=sub)
+    ctx.floor(rule, n, 2, "single-pixel look-ups in _refit_islands")
 
 
 def rule_groupby(ctx, prog):
